@@ -209,13 +209,12 @@ def run(ctx):
     cfgp = os.path.join(vlib.SPEC, "MC_SimpsonStack_run.cfg")
     open(cfgp, "w").write(open(os.path.join(vlib.SPEC, "MC_SimpsonStack.cfg")).read().replace("MaxLevel = 3", "MaxLevel = %d" % (3 if ctx.tier == "quick" else 4)))
     try:
-        r = vlib.tlc("SimpsonStack", cfg="MC_SimpsonStack_run.cfg", workers=4, timeout=1200, deque=False)
+        vlib.e1(ctx, "SimpsonStack", "SimpsonStack", ["AcceptV", "SplitV", "Finish"], cfg="MC_SimpsonStack_run.cfg", workers=4, timeout=1200)
     finally:
         os.remove(cfgp)
-    ctx.add_tlc(r, e1=True)
-    ctx.add_tlc(vlib.tlc("MC_GaussStop", workers=2, timeout=600, deque=False), e1=True)
-    ctx.add_tlc(vlib.tlc("MC_RombergP", workers=2, timeout=600, deque=False), e1=True)
-    ctx.add_tlc(vlib.tlc("MC_TanhSinhStop", workers=2, timeout=600, deque=False), e1=True)
+    vlib.e1(ctx, "MC_GaussStop", "GaussStop", ["RuleV", "Exhausted"], workers=2, timeout=600)
+    vlib.e1(ctx, "MC_RombergP", "RombergP", ["Begin", "RowStep", "Finish"], workers=2, timeout=600)
+    vlib.e1(ctx, "MC_TanhSinhStop", "TanhSinhStop", ["LevelV", "Exhausted"], workers=2, timeout=600)
     judge(ctx, gen(ctx, rng, 1600 if ctx.tier == "quick" else 16000))
     ctx.rule = ("8 routines x seeded integrands (polynomials, a e^{cx}, a sin(wx+p), a e^{i(wx+p)}) with closed-form integrals, intervals of "
                 "length 0.05..4 in [-5,5], tol 1e-11..1e-3, real and complex; reversed / empty intervals and negative tolerances; Romberg on "
